@@ -13,14 +13,14 @@ ID = "C18"
 LEVEL = "model_checking"
 ENGINE = "E2-explicit-state-histories"
 TECHNIQUE = "exhaustive enumeration of version sets x Sid shapes (single calls) + explicit-state BFS over publishing histories on the real API"
-RULE = ("single calls = (version set, movie version set, Sid, call): version sets = all 64 subsets of {v001,v002,v003,v010,v998,"
+RULE = ("single calls = (version set, movie version set, Sid, call): version sets = all 128 subsets of {v001,v002,v003,v010,v011,v998,"
         "v999} created at file level (work scene file), x movie-file version sets {none, {v002}, {v999}}; Sids = task, version, "
         "state, scene file, movie file with the version absent / each of 8 concrete values / '*' / '>'; calls = get_last, "
         "get_next, get_new. histories = BFS over create(x.get_new('version')) for x in {task A, scene file A, movie file A, "
         "task B} to the depth bound, de-duplicated on the canonical tree. distinct = distinct (universe, Sid) / trees.")
 ASSUMPTIONS = ["version format = the demo plug-in's ('v' + 3 digits)", "for the constants-backed state level existence follows its version"]
 
-VERS = ["v001", "v002", "v003", "v010", "v998", "v999"]
+VERS = ["v001", "v002", "v003", "v010", "v011", "v998", "v999"]
 
 
 def fmt(n):
@@ -175,7 +175,7 @@ def run_shard(sh):
         return rec.result()
     # ---- publishing histories
     from spil import Sid, WriteToPaths, SpilException
-    depth = 8 if sh["tier"] == "thorough" else 5
+    depth = 8 if sh["tier"] == "thorough" else 6
     PUB = publishers(C)
     OPS = [["publish", n] for n, _ in PUB]
     psid = dict(PUB)
@@ -295,4 +295,4 @@ def replay_case(kind, case):
 
 
 def coverage(m, tier, seed):
-    return {"exhaustive": True, "bounds": {"version_subsets": 64, "movie_sets": 3, "publish_depth": 8 if tier == "thorough" else 5}, "explorers": m["extra"][:8]}
+    return {"exhaustive": True, "bounds": {"version_subsets": 2 ** len(VERS), "movie_sets": 3, "publish_depth": 8 if tier == "thorough" else 6}, "explorers": m["extra"][:8]}
